@@ -452,7 +452,11 @@ def gen_format(rng, style, p_bad=0.3):
         bad = rng.random() < p_bad
         if r < 0.2:
             toks.append({"t": "lit", "s": rng.choice(
-                ["hello", " ", "-", "[", "]", "msg:", "100", "a b", "="])})
+                ["hello", " ", "-", "[", "]", "msg:", "100", "a b", "=",
+                 # backslash sequences that are NOT among the five documented
+                 # escapes stay as they are written
+                 "\\a", "\\0", "\\x41", "\\\\", "\\\\n", "\\u0041",
+                 "C:\\logs\\app", "\\'", "z\\"])})
         elif r < 0.26:
             toks.append({"t": "esc",
                          "brace": rng.choice(["{{", "}}"])})
